@@ -25,32 +25,32 @@ type Violation struct {
 
 // Result is one simulated run as printed by the worker.
 type Result struct {
-	Property     string         `json:"property"`
-	World        string         `json:"world"`
-	Profile      string         `json:"profile"`
-	Idx          int            `json:"idx"`
-	Seed         uint64         `json:"seed"`
-	Tape         []uint32       `json:"tape,omitempty"`
-	TapeLen      int            `json:"tape_len"`
-	TapeHash     string         `json:"tape_hash"`
-	TraceHash    string         `json:"trace_hash"`
-	Steps        int            `json:"steps"`
-	SimSeconds   float64        `json:"sim_seconds"`
-	Faults       map[string]int `json:"faults,omitempty"`
-	Probes       map[string]int `json:"probes,omitempty"`
-	Checks       map[string]int `json:"checks,omitempty"`
-	Violation    *Violation     `json:"violation,omitempty"`
+	Property   string         `json:"property"`
+	World      string         `json:"world"`
+	Profile    string         `json:"profile"`
+	Idx        int            `json:"idx"`
+	Seed       uint64         `json:"seed"`
+	Tape       []uint32       `json:"tape,omitempty"`
+	TapeLen    int            `json:"tape_len"`
+	TapeHash   string         `json:"tape_hash"`
+	TraceHash  string         `json:"trace_hash"`
+	Steps      int            `json:"steps"`
+	SimSeconds float64        `json:"sim_seconds"`
+	Faults     map[string]int `json:"faults,omitempty"`
+	Probes     map[string]int `json:"probes,omitempty"`
+	Checks     map[string]int `json:"checks,omitempty"`
+	Violation  *Violation     `json:"violation,omitempty"`
 	// Extra holds violations that do not end the run's checking (at most one per
 	// class+sig): used for behaviour that may be a listed known finding, so that
 	// it cannot mask another violation of the same run.
-	Extra []Violation `json:"extra,omitempty"`
-	Inconclusive string         `json:"inconclusive,omitempty"`
-	Nontrivial   bool           `json:"nontrivial"`
-	Sample       interface{}    `json:"sample,omitempty"`
-	Trace        []string       `json:"trace,omitempty"`
-	WallMs       float64        `json:"wall_ms"`
-	Crashed      string         `json:"crashed,omitempty"`
-	Overrun      int            `json:"overrun,omitempty"`
+	Extra        []Violation `json:"extra,omitempty"`
+	Inconclusive string      `json:"inconclusive,omitempty"`
+	Nontrivial   bool        `json:"nontrivial"`
+	Sample       interface{} `json:"sample,omitempty"`
+	Trace        []string    `json:"trace,omitempty"`
+	WallMs       float64     `json:"wall_ms"`
+	Crashed      string      `json:"crashed,omitempty"`
+	Overrun      int         `json:"overrun,omitempty"`
 }
 
 // Run is the per-run context handed to a world.
